@@ -27,6 +27,9 @@ Alphabets == [
   \* preamble-shaped texts (entries concatenated directly): module header, placeholder lines
   preamble |-> <<";; $MODULE ", ";; $MODULE", ";; $A 1", ";; $", "\n", "x", "$A", "(", ")", " ", ";;", "\n\n", "1", ";; $A">>,
   tokens2  |-> <<"(", ")", "[", "]", "{", "}", "#{", "~@", "@", "^", "\"a\"", ":k", "`", "~">>,
+  \* string literals with every kind of backslash escape the scanner lets through (token fragments, joined directly)
+  escseeds |-> <<"\"\\x00\"", "\"a\\u0000b\"", "\"\\000\"", "\"\\t\"", "\"\\x41\"", "\"\\101\"", "\"\\r\"", "\"\\U00000041\"",
+                 "[", "]", " ", "{", "}", ":k ">>,
   \* not an alphabet: hand-written preambles of 8 x len lines, each value naming the placeholder of the line above
   \* twice (values are data: they are not expanded; PRINT of what is read stays small)
   chain    |-> <<"x">> ]
